@@ -601,12 +601,13 @@ static void observeAll(std::string &out, std::index_sequence<I...>) {
   (void)std::initializer_list<int>{((out += first ? "" : ","), first = false, observe(std::get<I>(g_slots), out), 0)...};
 }
 
+extern long g_h0, g_h1;
 static void emit(const Label &lb, const Result &r) {
   Internal g;
   std::string line = "{\"e\":\"op\",\"lbl\":" + lb.json() + ",\"ret\":" + r.json() + ",\"obs\":[";
   observeAll(line, std::make_index_sequence<static_cast<size_t>(K)>());
   line += "],\"prims\":[" + R.prims + "],\"allocs\":[" + R.allocs + "],\"gm\":" + std::to_string(R.gm) +
-          ",\"te\":" + std::to_string(R.throwEvents) + "}";
+          ",\"te\":" + std::to_string(R.throwEvents) + ",\"h0\":" + std::to_string(g_h0) + ",\"h1\":" + std::to_string(g_h1) + "}";
   R.prims.clear();
   R.allocs.clear();
   OUT.line(line);
@@ -619,6 +620,28 @@ static bool exists(int c) {
 }
 
 static bool g_lastInjected = false;
+long g_h0 = 0, g_h1 = 0;
+
+static bool isConstOp(const std::string &op) {
+  return op == "at" || op == "index" || op == "front" || op == "back" || op == "iterate" || op == "eq" || op == "ne" || op == "lt" ||
+         op == "le" || op == "gt" || op == "ge" || op == "ctorCopy" || op == "assignCopy";
+}
+// hash of the representation of the container(s) a const operation reads: the object bytes and its element buffer
+static long hashConstOperands(const Label &lb) {
+  long h = 0;
+  bool rd = lb.op == "ctorCopy" || lb.op == "assignCopy";   // the operand read is the second one
+  int who[2] = {rd ? lb.d : lb.c, (lb.d != 0 && !rd) ? lb.d : 0};
+  for (int i = 0; i < 2; ++i) {
+    if (who[i] == 0) continue;
+    visit(who[i], [&](auto &s) {
+      if (!s.ex()) return;
+      using T = typename std::remove_reference<decltype(s)>::type::type;
+      h = (h * 31 + repHash(s.p, sizeof(T))) % 1000000007L;
+      h = (h * 31 + repHash(s.p->data(), sizeof(E) * static_cast<size_t>(s.p->size()))) % 1000000007L;
+    });
+  }
+  return h;
+}
 
 static void execute(const Label &lb) {
   {
@@ -631,6 +654,8 @@ static void execute(const Label &lb) {
   }
   Result r;
   bool isCtor = lb.op.compare(0, 4, "ctor") == 0;
+  bool cop = isConstOp(lb.op) && lb.c >= 1 && lb.c <= K && lb.d >= 0 && lb.d <= K && !(lb.op == "assignCopy" && lb.c == lb.d);
+  g_h0 = cop ? hashConstOperands(lb) : 0;
   if (lb.c < 1 || lb.c > K || (lb.d != 0 && (lb.d < 1 || lb.d > K))) {
     r.unsupported();
   } else if (isCtor) {
@@ -650,6 +675,7 @@ static void execute(const Label &lb) {
   }
   g_inflightValid = 0;
   g_lastInjected = r.k == "exc" && (r.s == "injected" || r.s == "bad_alloc");
+  g_h1 = cop ? hashConstOperands(lb) : 0;
   emit(lb, r);
 }
 
